@@ -1,17 +1,112 @@
-"""Self-validation of the checkers (thorough tier): registered mutants of /repo/miros must be reported at the mutated
-construct, registered behaviour-preserving variants must stay silent.  Runs on scratch copies under a temporary directory
-(outside /repo and /verif), removed when done.  It can only downgrade a run to ANALYSIS-ERROR, never produce a VIOLATION."""
+"""Self-validation of the checkers (thorough tier): registered mutants of /repo/miros must be reported (exit 1 with a VIOLATION line),
+registered behaviour-preserving variants must stay silent (exit 0).  Every variant is applied to a scratch copy of the package under a
+temporary directory (outside /repo and /verif), analysed with `check --repo <copy>`, and the copy is removed.  The self-validation can
+only downgrade a run to ANALYSIS-ERROR (exit 2); it never produces a VIOLATION for the real tree."""
+import ast
+import concurrent.futures
+import os
+import shutil
+import subprocess
+import sys
+import tempfile
+
+HERE = os.path.dirname(os.path.dirname(os.path.abspath(__file__)))
+
+
+def apply_edits(src_dir, dst_dir, edits):
+    """edits: [(file, old, new)] exact-string replacements, each old must occur exactly once.  Returns None or a reason for skipping."""
+    shutil.copytree(os.path.join(src_dir, 'miros'), os.path.join(dst_dir, 'miros'), ignore=shutil.ignore_patterns('__pycache__'))
+    for fname, old, new in edits:
+        p = os.path.join(dst_dir, 'miros', fname)
+        s = open(p, encoding='utf-8').read()
+        if s.count(old) != 1:
+            return 'anchor occurs %d times in %s' % (s.count(old), fname)
+        s = s.replace(old, new)
+        try:
+            ast.parse(s)
+        except SyntaxError as ex:
+            return 'variant does not parse: %s' % ex
+        open(p, 'w', encoding='utf-8').write(s)
+    return None
+
+
+def run_variant(args):
+    prop, vid, kind, edits, repo = args
+    tmp = tempfile.mkdtemp(prefix='miros_selftest_')
+    try:
+        why = apply_edits(repo, tmp, edits)
+        if why:
+            return (vid, kind, 'skipped', why)
+        env = dict(os.environ)
+        env['MIROS_VERIF_OUT'] = os.path.join(tmp, 'out')
+        env['MIROS_VERIF_NO_SELFTEST'] = '1'
+        pr = subprocess.run([os.path.join(HERE, 'check'), prop, '--tier', 'quick', '--repo', tmp], capture_output=True, text=True, env=env, timeout=300)
+        out = pr.stdout
+        viol = [l for l in out.splitlines() if l.startswith('VIOLATION')]
+        finds = [l.strip() for l in out.splitlines() if l.strip().startswith('FINDING')]
+        if pr.returncode == 2:
+            return (vid, kind, 'analysis-error', (out.strip().splitlines() or ['?'])[-1][:200])
+        fired = pr.returncode == 1 and bool(viol)
+        return (vid, kind, 'fired' if fired else 'silent', '; '.join(finds)[:300])
+    finally:
+        shutil.rmtree(tmp, ignore_errors=True)
+
+
+def validate(prop, repo=None, jobs=16):
+    from selftest.mutants import CORPUS
+    repo = repo or os.environ.get('MIROS_VERIF_REPO', '/repo')
+    variants = CORPUS.get(prop, [])
+    work = [(prop, v['id'], v['kind'], v['edits'], repo) for v in variants]
+    results = []
+    if work:
+        with concurrent.futures.ThreadPoolExecutor(max_workers=jobs) as ex:
+            results = list(ex.map(run_variant, work))
+    return variants, results
 
 
 def attach(run, prop):
-    try:
-        from selftest import mutants
-    except ImportError:
-        run.selftest = {'status': 'no mutant corpus registered yet'}
-        return
-    mutants.validate(run, prop)
+    from sa.model import AnalysisError
+    variants, results = validate(prop)
+    summary = {'variants': len(variants), 'mutants_fired': 0, 'mutants_missed': [], 'benign_silent': 0, 'benign_fired': [], 'skipped': [], 'errors': [], 'details': []}
+    desc = {v['id']: v['what'] for v in variants}
+    for vid, kind, outcome, info in results:
+        summary['details'].append({'id': vid, 'kind': kind, 'what': desc.get(vid, ''), 'outcome': outcome, 'info': info})
+        if outcome == 'skipped':
+            summary['skipped'].append('%s (%s)' % (vid, info))
+        elif kind == 'mutant':
+            if outcome == 'fired':
+                summary['mutants_fired'] += 1
+            else:
+                summary['mutants_missed'].append('%s: %s (%s)' % (vid, desc.get(vid, ''), outcome))
+        else:
+            if outcome == 'silent':
+                summary['benign_silent'] += 1
+            else:
+                summary['benign_fired'].append('%s: %s (%s: %s)' % (vid, desc.get(vid, ''), outcome, info))
+    run.selftest = summary
+    print('  self-validation: %d variants, %d mutants reported, %d benign variants silent, %d skipped'
+          % (len(variants), summary['mutants_fired'], summary['benign_silent'], len(summary['skipped'])))
+    if summary['mutants_missed'] or summary['benign_fired']:
+        for m in summary['mutants_missed']:
+            print('  SELFTEST mutant not reported: ' + m)
+        for m in summary['benign_fired']:
+            print('  SELFTEST benign variant not silent: ' + m)
+        raise AnalysisError('checker self-validation failed for %s: %d mutants missed, %d benign variants not silent'
+                            % (prop, len(summary['mutants_missed']), len(summary['benign_fired'])))
 
 
 def main(argv):
-    from selftest import mutants
-    return mutants.main(argv)
+    from selftest.mutants import CORPUS
+    props = argv or sorted(CORPUS)
+    bad = 0
+    for p in props:
+        variants, results = validate(p)
+        for vid, kind, outcome, info in results:
+            good = (kind == 'mutant' and outcome == 'fired') or (kind == 'benign' and outcome == 'silent')
+            if outcome == 'skipped':
+                mark = 'SKIP'
+            else:
+                mark = 'ok  ' if good else 'BAD '
+                bad += 0 if good else 1
+            print('%s %-4s %-28s %-7s %-15s %s' % (mark, p, vid, kind, outcome, info[:150]))
+    return 1 if bad else 0
